@@ -97,8 +97,12 @@ def make_tree(m):
         shutil.copy(os.path.join(REPO, f), d)
     path = os.path.join(d, "octoprint_excluderegion", m["file"])
     lines = open(path, "rb").read().decode("utf-8").split("\r\n")
-    assert lines[m["line"]] == m["old"], (lines[m["line"]], m["old"])
-    lines[m["line"]] = m["new"]
+    idx = m["line"]
+    if lines[idx] != m["old"]:      # the tree moved on a few lines since the catalogue was generated
+        cands = [j for j in range(max(0, idx - 12), min(len(lines), idx + 13)) if lines[j] == m["old"]]
+        assert len(cands) == 1, (m["file"], idx, m["old"])
+        idx = cands[0]
+    lines[idx] = m["new"]
     open(path, "wb").write("\r\n".join(lines).encode("utf-8"))
     return d
 
